@@ -248,13 +248,24 @@ def solver_boundary(run, n):
 
         QRS.fit = rec
         try:
-            res = E.run_client(e, estimands=["turnout"], alphas=[0.5], pi_method="nonparametric", features=["x1"], fixed_effects=fe)
+            ests = rng.choice([["turnout"], ["turnout", "dem"], ["dem", "gop", "turnout"]])
+            res = E.run_client(e, estimands=ests, alphas=[0.5], pi_method=rng.choice(["nonparametric", "gaussian"]), features=["x1"],
+                               fixed_effects=fe)
         finally:
             QRS.fit = orig
-        case = {"solver_boundary": True, "election": e.describe(), "fixed_effects": fe}
+        case = {"solver_boundary": True, "election": e.describe(), "fixed_effects": fe, "estimands": ests}
         run.case(case, True)
         run.count("solver-boundary runs")
         if "raises" in res:
+            continue
+        # every estimand is fitted on the same design: same number of columns in every median fit, no column twice
+        med_cols = {x.shape[1] for x, tau in calls if tau == 0.5}
+        dup = next(((i, j) for x, tau in calls if tau == 0.5 for i in range(x.shape[1]) for j in range(i + 1, x.shape[1])
+                    if x.shape[0] > 1 and np.array_equal(x[:, i], x[:, j])), None)  # (interval fits: constant columns are KF-3)
+        if len(med_cols) > 1 or dup is not None:
+            run.violation("the design matrix handed to the solver has a column twice, or differs in width between the estimands of one run",
+                          input=case, impl={"median_fit_widths": sorted(med_cols), "equal_columns": dup},
+                          predicate="sortFeatures_perm / one_dropped_per_effect (same columns, same order)", signature="C16:solver-columns")
             continue
         for x, tau in calls:
             const = [j for j in range(1, x.shape[1]) if x.shape[0] > 0 and np.all(x[:, j] == x[0, j])]
